@@ -5,6 +5,7 @@ package asm
 import (
 	"math/big"
 
+	"github.com/llir/llvm/ir"
 	"github.com/llir/llvm/ir/constant"
 )
 
@@ -133,5 +134,85 @@ func VfC09_ParseLiteral() {
 	vfAssert("C09.parse.print-is-int", isInt2)
 	if isInt2 {
 		vfAssert("C09.parse.print-keeps-value", c2.X.Cmp(want) == 0)
+	}
+}
+
+// VfC09_SameSpelling: one literal spelling (symbolic digits; decimal, negative
+// decimal, u0x or s0x with two digits) used at several types and several times
+// in one module - two globals of type i8, one of i16, one of i64 and an i16
+// instruction operand, in both textual orders of the i8 and i16 uses: each
+// occurrence denotes the value the notation gives at its own type (s0x is
+// two's complement at the width of the type it is written at), whatever the
+// same spelling denoted elsewhere in the module.
+//
+//vf:unwind 400
+//vf:shards 4
+func VfC09_SameSpelling() {
+	form := vfChoice("form", 4)
+	d := vfString("d", 2)
+	var v int64 // value of the two digits
+	hexv := func(b byte, cls string) int64 {
+		okd := vfAnd(b >= '0', b <= '9')
+		okA := vfAnd(b >= 'A', b <= 'F')
+		if vfChoice(cls, 2) == 0 {
+			vfAssume(okd)
+			return int64(b - '0')
+		}
+		vfAssume(okA)
+		return int64(b-'A') + 10
+	}
+	lit := ""
+	w8, w16, w64 := int64(0), int64(0), int64(0)
+	switch form {
+	case 0, 1:
+		vfAssume(vfAnd(vfAnd(d[0] >= '0', d[0] <= '9'), vfAnd(d[1] >= '0', d[1] <= '9')))
+		v = int64(d[0]-'0')*10 + int64(d[1]-'0')
+		lit = d
+		if form == 1 {
+			lit = "-" + d
+			v = -v
+		}
+		w8, w16, w64 = v, v, v
+	case 2:
+		v = hexv(d[0], "c0")*16 + hexv(d[1], "c1")
+		lit = "u0x" + d
+		w8, w16, w64 = v, v, v
+	default:
+		v = hexv(d[0], "c0")*16 + hexv(d[1], "c1")
+		lit = "s0x" + d
+		w8, w16, w64 = v, v, v
+		if v >= 128 {
+			w8 = v - 256
+		}
+	}
+	first, second := "@a = global i8 "+lit+"\n", "@b = global i16 "+lit+"\n"
+	ia, ib := 0, 1
+	if vfChoice("order", 2) == 1 {
+		first, second = second, first
+		ia, ib = 1, 0
+	}
+	src := first + second + "@c = global i8 " + lit + "\n@d = global i64 " + lit + "\n" +
+		"define i16 @f(i16 %x) {\n\t%r = add i16 %x, " + lit + "\n\tret i16 %r\n}\n"
+	m, err := ParseString("t.ll", src)
+	vfReach("C09.same-spelling")
+	vfObserveStr("src", src)
+	vfAssert("C09.same-spelling.accepted", err == nil)
+	if err != nil {
+		return
+	}
+	val := func(c constant.Constant) *big.Int {
+		if k, ok := c.(*constant.Int); ok {
+			return k.X
+		}
+		return big.NewInt(123456789) // not an integer constant: fails the comparison
+	}
+	vfAssert("C09.same-spelling.i8", vfAnd(val(m.Globals[ia].Init).Cmp(big.NewInt(w8)) == 0, val(m.Globals[2].Init).Cmp(big.NewInt(w8)) == 0))
+	vfAssert("C09.same-spelling.i16", val(m.Globals[ib].Init).Cmp(big.NewInt(w16)) == 0)
+	vfAssert("C09.same-spelling.i64", val(m.Globals[3].Init).Cmp(big.NewInt(w64)) == 0)
+	add, ok := m.Funcs[0].Blocks[0].Insts[0].(*ir.InstAdd)
+	vfAssert("C09.same-spelling.operand-is-add", ok)
+	if ok {
+		k, ok2 := add.Y.(*constant.Int)
+		vfAssert("C09.same-spelling.operand", vfAnd(ok2, val(k).Cmp(big.NewInt(w16)) == 0))
 	}
 }
